@@ -393,3 +393,34 @@ def storage_fault_history():
                                        st.just(['advance', 41])), min_size=2, max_size=14))
         return cfg, acts + tail
     return strat()
+
+
+def double_report_history():
+    """A stored message is reported twice to a (re)started queue - by load() and by wait(), or by an at-least-once announcement -
+    while the first _dequeue is still reading it from storage; the reads are answered in either order, before or after the
+    outcome of the first attempt has been recorded."""
+    T = {'shape': 'raise_t', 'replies': [0]}
+    OK = {'shape': 'none'}
+
+    @st.composite
+    def strat(draw):
+        cfg = {'backend': draw(st.sampled_from(['dict', 'disk', 'shelf', 'redis', 'cloud'])), 'backoff': [draw(st.sampled_from([5, 8]))],
+               'backoff_forever': True, 'announce': True, 'store_pool': draw(st.sampled_from([None, None, 3])),
+               'relay_pool': draw(st.sampled_from([None, None, 2]))}
+        n = draw(st.integers(1, 3))
+        per = draw(st.lists(st.sampled_from(['ok', 'temp', 'perm', 'temp']), min_size=n, max_size=n))
+        outcome = draw(st.sampled_from([T, T, {'shape': 'map', 'per': per, 'replies': [0]}]))
+        acts = [['enqueue', {'n': n, 'sender': True, 'body': ''}], ['serve', T], ['restart'], ['advance', 80],
+                ['release_kind', 'load', 0],          # first report: _dequeue starts and parks in get()
+                ['announce', 0]]                      # second report while the id is neither queued nor active
+        which = draw(st.integers(0, 1))
+        acts += [['release_kind', 'get', which], ['release_kind', 'relay', 0, outcome]]
+        # record the outcome (some or all of it) before the other read is answered
+        for k_ in draw(st.lists(st.sampled_from(['increment_attempts', 'set_timestamp', 'set_recipients_delivered', 'remove']),
+                                min_size=0, max_size=4)):
+            acts.append(['release_kind', k_, 0])
+        acts.append(['release_kind', 'get', 0])
+        tail = draw(st.lists(st.one_of(st.integers(0, 3).map(lambda i: ['release', i, OK]), st.just(['storage']), st.just(['answer', OK]),
+                                       st.just(['tick'])), max_size=6))
+        return cfg, acts + tail
+    return strat()
